@@ -482,8 +482,8 @@ func TestC17_BeyondFourGiB(t *testing.T) {
 			kinds = []string{"small", "stored-filler", "small", "small"}[:len(members)]
 			edge = fmt.Sprintf("%s at 4GiB%+d", map[bool]string{true: "central directory", false: "member header"}[anchorCD], delta-1)
 		}
-		if edge != "" && lot%20 == 7 {
-			// edge layouts are cheap for Python (no member beyond 1 GiB is read): one in 20
+		if edge != "" && lot%5 == 2 {
+			// edge layouts are cheap for Python (no member beyond 1 GiB is read): one in 5
 			withPython = true
 		}
 		s, want := buildBig(members, style)
